@@ -627,3 +627,487 @@ Print Assumptions int_of_str_lex.
 Print Assumptions int_of_str_lex_len.
 Print Assumptions int_of_str_lex_over.
 Print Assumptions str_of_Z_digits.
+
+(** * Order by exact value: scaling, reflexivity, symmetry, transitivity *)
+
+Lemma pow2_pos k : 0 <= k -> 0 < 2 ^ k.
+Proof. intros; apply Z.pow_pos_nonneg; lia. Qed.
+
+(** comparison of two finite floats on any common scale 2^K below both exponents *)
+Lemma f_cmp_scale m1 e1 m2 e2 K :
+  K <= e1 -> K <= e2 ->
+  f_cmp (Fin m1 e1) (Fin m2 e2) = Some (m1 * 2 ^ (e1 - K) ?= m2 * 2 ^ (e2 - K)).
+Proof.
+  intros H1 H2. cbn [f_cmp]. f_equal.
+  remember (Z.min e1 e2) as e eqn:He.
+  rewrite !Z.shiftl_mul_pow2 by lia.
+  replace (e1 - K) with ((e1 - e) + (e - K)) by lia.
+  replace (e2 - K) with ((e2 - e) + (e - K)) by lia.
+  rewrite !Z.pow_add_r, !Z.mul_assoc by lia.
+  apply Zmult_compare_compat_r. apply Z.lt_gt. apply pow2_pos. lia.
+Qed.
+
+Lemma fin_leb_scale m1 e1 m2 e2 K :
+  K <= e1 -> K <= e2 ->
+  f_leb (Fin m1 e1) (Fin m2 e2) = (m1 * 2 ^ (e1 - K) <=? m2 * 2 ^ (e2 - K)).
+Proof.
+  intros H1 H2. unfold f_leb. rewrite (f_cmp_scale m1 e1 m2 e2 K H1 H2). unfold Z.leb.
+  destruct (m1 * 2 ^ (e1 - K) ?= m2 * 2 ^ (e2 - K)); reflexivity.
+Qed.
+
+Lemma fin_eqb_scale m1 e1 m2 e2 K :
+  K <= e1 -> K <= e2 ->
+  f_eqb (Fin m1 e1) (Fin m2 e2) = (m1 * 2 ^ (e1 - K) =? m2 * 2 ^ (e2 - K)).
+Proof.
+  intros H1 H2. unfold f_eqb. rewrite (f_cmp_scale m1 e1 m2 e2 K H1 H2), Z.eqb_compare.
+  destruct (m1 * 2 ^ (e1 - K) ?= m2 * 2 ^ (e2 - K)); reflexivity.
+Qed.
+
+Lemma f_cmp_opp a b :
+  f_cmp b a = match f_cmp a b with Some c => Some (CompOpp c) | None => None end.
+Proof.
+  destruct a as [m1 e1| | |], b as [m2 e2| | |]; try reflexivity.
+  rewrite (f_cmp_scale m2 e2 m1 e1 (Z.min e1 e2)), (f_cmp_scale m1 e1 m2 e2 (Z.min e1 e2)) by lia.
+  f_equal. apply Z.compare_antisym.
+Qed.
+
+Lemma f_eqb_refl x : x <> NaN -> f_eqb x x = true.
+Proof.
+  destruct x as [m e| | |]; try reflexivity; [|congruence]. intros _.
+  rewrite (fin_eqb_scale m e m e e) by lia. apply Z.eqb_refl.
+Qed.
+
+Lemma f_eqb_leb a b : f_eqb a b = true -> f_leb a b = true /\ f_leb b a = true.
+Proof.
+  unfold f_eqb, f_leb. rewrite (f_cmp_opp a b).
+  destruct (f_cmp a b) as [[]|]; try discriminate. auto.
+Qed.
+
+Lemma f_leb_not_nan a b : f_leb a b = true -> a <> NaN /\ b <> NaN.
+Proof. destruct a, b; cbn; try discriminate; split; congruence. Qed.
+
+Lemma f_leb_trans a b c : f_leb a b = true -> f_leb b c = true -> f_leb a c = true.
+Proof.
+  destruct a as [m1 e1| | |], b as [m2 e2| | |], c as [m3 e3| | |];
+    try reflexivity; try discriminate.
+  remember (Z.min e1 (Z.min e2 e3)) as K eqn:HK.
+  rewrite (fin_leb_scale m1 e1 m2 e2 K), (fin_leb_scale m2 e2 m3 e3 K),
+          (fin_leb_scale m1 e1 m3 e3 K) by lia.
+  rewrite !Z.leb_le. lia.
+Qed.
+
+Lemma f_leb_refl x : x <> NaN -> f_leb x x = true.
+Proof. intros H. apply (f_eqb_leb x x). now apply f_eqb_refl. Qed.
+
+Lemma f_leb_neg a b : f_leb (f_neg a) (f_neg b) = f_leb b a.
+Proof.
+  destruct a as [m1 e1| | |], b as [m2 e2| | |]; try reflexivity.
+  cbn [f_neg].
+  rewrite (fin_leb_scale (- m1) e1 (- m2) e2 (Z.min e1 e2)),
+          (fin_leb_scale m2 e2 m1 e1 (Z.min e1 e2)) by lia.
+  apply Bool.eq_true_iff_eq. rewrite !Z.leb_le. lia.
+Qed.
+
+(** connection with the cross-multiplied form used by f_round_mono *)
+Lemma f_leb_cross a b :
+  f_leb a b = true -> f_is_finite a = true -> f_is_finite b = true ->
+  f_num a * f_den b <= f_num b * f_den a.
+Proof.
+  intros H Ha Hb. rewrite (f_leb_exact a b Ha Hb) in H. now apply Z.leb_le.
+Qed.
+
+(** * The integer rounding inside [round_dy] and [f_round] *)
+
+(** a / 2^sh rounded to the nearest integer, ties to even *)
+Definition rne (a sh : Z) : Z :=
+  let q := Z.shiftr a sh in
+  let rem := a - Z.shiftl q sh in
+  let half := Z.shiftl 1 (sh - 1) in
+  if (half <? rem) || ((half =? rem) && Z.odd q) then q + 1 else q.
+
+Lemma f_round_rne a sh : 0 < sh -> f_round (Fin a (- sh)) = Ok (rne a sh).
+Proof.
+  intros H. unfold f_round, rne. destruct (Z.leb_spec 0 (- sh)); [lia|].
+  rewrite Z.opp_involutive. reflexivity.
+Qed.
+
+Lemma rne_mono a1 sh1 a2 sh2 :
+  0 < sh1 -> 0 < sh2 -> a1 * 2 ^ sh2 <= a2 * 2 ^ sh1 -> rne a1 sh1 <= rne a2 sh2.
+Proof.
+  intros H1 H2 H.
+  apply (f_round_mono (Fin a1 (- sh1)) (Fin a2 (- sh2))); try (apply f_round_rne; assumption).
+  cbn [f_num f_den]. rewrite !Z.opp_involutive.
+  replace (Z.max (- sh1) 0) with 0 by lia. replace (Z.max (- sh2) 0) with 0 by lia.
+  replace (Z.max sh1 0) with sh1 by lia. replace (Z.max sh2 0) with sh2 by lia.
+  change (2 ^ 0) with 1. lia.
+Qed.
+
+Lemma rne_exact k sh : 0 < sh -> rne (k * 2 ^ sh) sh = k.
+Proof.
+  intros H.
+  assert (R : f_round (Fin k 0) = Ok k).
+  { rewrite f_round_int by lia. change (2 ^ 0) with 1. f_equal. lia. }
+  assert (P := pow2_pos sh ltac:(lia)).
+  apply Z.le_antisymm.
+  - apply (f_round_mono (Fin (k * 2 ^ sh) (- sh)) (Fin k 0) _ _ (f_round_rne _ _ H) R).
+    cbn [f_num f_den]. rewrite Z.opp_involutive.
+    replace (Z.max (- sh) 0) with 0 by lia. replace (Z.max sh 0) with sh by lia.
+    change (Z.max 0 0) with 0. change (Z.max (- 0) 0) with 0. change (2 ^ 0) with 1. lia.
+  - apply (f_round_mono (Fin k 0) (Fin (k * 2 ^ sh) (- sh)) _ _ R (f_round_rne _ _ H)).
+    cbn [f_num f_den]. rewrite Z.opp_involutive.
+    replace (Z.max (- sh) 0) with 0 by lia. replace (Z.max sh 0) with sh by lia.
+    change (Z.max 0 0) with 0. change (Z.max (- 0) 0) with 0. change (2 ^ 0) with 1. lia.
+Qed.
+
+Lemma rne_nonneg a sh : 0 < sh -> 0 <= a -> 0 <= rne a sh.
+Proof.
+  intros H Ha. rewrite <- (rne_exact 0 sh H). apply rne_mono; try assumption.
+  assert (P := pow2_pos sh ltac:(lia)). nia.
+Qed.
+
+(** [round_dy] of a positive mantissa in its rounding branch *)
+Lemma round_dy_pos_unfold m e :
+  0 < m ->
+  round_dy m e =
+    let lm := Z.log2 m in
+    if lm + e <? -1075 then Fin 0 0 else
+    let e' := Z.max (lm + e - 52) (-1074) in
+    if e' <=? e then (if 1024 <=? lm + e then PInf else Fin m e)
+    else let q := rne m (e' - e) in
+         if 1024 <=? Z.log2 q + e' then PInf else Fin q e'.
+Proof.
+  intros H. unfold round_dy, rne.
+  destruct (Z.eqb_spec m 0); [lia|]. destruct (Z.ltb_spec m 0); [lia|].
+  rewrite Z.abs_eq by lia. reflexivity.
+Qed.
+
+Lemma round_dy_opp m e : round_dy (- m) e = f_neg (round_dy m e).
+Proof.
+  unfold round_dy. rewrite Z.abs_opp.
+  destruct (Z.eqb_spec m 0) as [->|Hm]; [reflexivity|].
+  destruct (Z.eqb_spec (- m) 0); [lia|].
+  destruct (Z.log2 (Z.abs m) + e <? -1075); [reflexivity|].
+  assert (Hs : (- m <? 0) = negb (m <? 0)).
+  { destruct (Z.ltb_spec (- m) 0), (Z.ltb_spec m 0); try reflexivity; lia. }
+  rewrite Hs. cbv zeta.
+  destruct (Z.max (Z.log2 (Z.abs m) + e - 52) (-1074) <=? e).
+  - destruct (1024 <=? Z.log2 (Z.abs m) + e); [destruct (m <? 0); reflexivity|reflexivity].
+  - match goal with |- context [1024 <=? ?x] => destruct (1024 <=? x) end;
+      [destruct (m <? 0); reflexivity|].
+    destruct (m <? 0); cbn [negb f_neg]; [now rewrite Z.opp_involutive|reflexivity].
+Qed.
+
+Lemma round_dy_not_nan m e : round_dy m e <> NaN.
+Proof.
+  unfold round_dy, inf_of_sign.
+  repeat match goal with
+         | |- context [if ?b then _ else _] => destruct b
+         end; cbv zeta; try discriminate;
+  repeat match goal with
+         | |- context [if ?b then _ else _] => destruct b
+         end; discriminate.
+Qed.
+
+(** * [round_dy] does not depend on the representation of its argument *)
+
+Lemma round_dy_scale m e k :
+  0 < m -> 0 <= k -> f_eqb (round_dy m e) (round_dy (m * 2 ^ k) (e - k)) = true.
+Proof.
+  intros Hm Hk.
+  assert (Pk := pow2_pos k Hk).
+  assert (Hm' : 0 < m * 2 ^ k) by (apply Z.mul_pos_pos; assumption).
+  rewrite (round_dy_pos_unfold m e Hm), (round_dy_pos_unfold (m * 2 ^ k) (e - k) Hm').
+  rewrite Z.log2_mul_pow2 by lia. cbv zeta.
+  replace (k + Z.log2 m + (e - k)) with (Z.log2 m + e) by lia.
+  remember (Z.log2 m) as lm eqn:Hlm.
+  destruct (Z.ltb_spec (lm + e) (-1075)); [reflexivity|].
+  remember (Z.max (lm + e - 52) (-1074)) as E eqn:HE.
+  destruct (Z.leb_spec E (e - k)) as [F2|F2].
+  - (* both fit *)
+    destruct (Z.leb_spec E e); [|lia].
+    destruct (1024 <=? lm + e); [reflexivity|].
+    rewrite (fin_eqb_scale m e (m * 2 ^ k) (e - k) (e - k)) by lia.
+    apply Z.eqb_eq. replace (e - (e - k)) with k by lia.
+    replace (e - k - (e - k)) with 0 by lia. change (2 ^ 0) with 1. lia.
+  - destruct (Z.leb_spec E e) as [F1|F1].
+    + (* the original fits, the scaled one is rounded, exactly *)
+      assert (Hq : rne (m * 2 ^ k) (E - (e - k)) = m * 2 ^ (e - E)).
+      { replace (m * 2 ^ k) with (m * 2 ^ (e - E) * 2 ^ (E - (e - k))).
+        - apply rne_exact. lia.
+        - rewrite <- Z.mul_assoc, <- Z.pow_add_r by lia. do 2 f_equal. lia. }
+      rewrite Hq. rewrite Z.log2_mul_pow2 by lia.
+      replace (e - E + Z.log2 m + E) with (lm + e) by lia.
+      destruct (1024 <=? lm + e); [reflexivity|].
+      rewrite (fin_eqb_scale m e (m * 2 ^ (e - E)) E E) by lia.
+      apply Z.eqb_eq. replace (E - E) with 0 by lia. change (2 ^ 0) with 1. lia.
+    + (* both rounded: same quotient *)
+      assert (Hq : rne (m * 2 ^ k) (E - (e - k)) = rne m (E - e)).
+      { assert (Hp : 2 ^ (E - (e - k)) = 2 ^ (E - e) * 2 ^ k).
+        { rewrite <- Z.pow_add_r by lia. f_equal. lia. }
+        apply Z.le_antisymm; apply rne_mono; try lia; rewrite Hp; lia. }
+      rewrite Hq.
+      destruct (1024 <=? Z.log2 (rne m (E - e)) + E); [reflexivity|].
+      apply f_eqb_refl. discriminate.
+Qed.
+
+(** closed form on a scale 2^K below every binary64 exponent *)
+Definition rd_form (X K : Z) : pyfloat :=
+  let lx := Z.log2 X in
+  if lx + K <? -1075 then Fin 0 0 else
+  let E := Z.max (lx + K - 52) (-1074) in
+  let q := rne X (E - K) in
+  if 1024 <=? Z.log2 q + E then PInf else Fin q E.
+
+Lemma round_dy_deep X K : 0 < X -> K <= -1075 -> round_dy X K = rd_form X K.
+Proof.
+  intros HX HK. rewrite (round_dy_pos_unfold X K HX). unfold rd_form. cbv zeta.
+  destruct (Z.log2 X + K <? -1075); [reflexivity|].
+  destruct (Z.leb_spec (Z.max (Z.log2 X + K - 52) (-1074)) K); [lia|reflexivity].
+Qed.
+
+Lemma round_dy_to_form m e K :
+  0 < m -> K <= e -> K <= -1075 ->
+  f_eqb (round_dy m e) (rd_form (m * 2 ^ (e - K)) K) = true.
+Proof.
+  intros Hm H1 H2.
+  rewrite <- round_dy_deep; [|apply Z.mul_pos_pos; [assumption|apply pow2_pos; lia]|assumption].
+  replace K with (e - (e - K)) at 2 by lia. apply round_dy_scale; lia.
+Qed.
+
+Lemma rd_form_nonneg X K : 0 < X -> K <= -1075 -> f_leb (Fin 0 0) (rd_form X K) = true.
+Proof.
+  intros HX HK. unfold rd_form. cbv zeta.
+  destruct (Z.log2 X + K <? -1075); [reflexivity|].
+  remember (Z.max (Z.log2 X + K - 52) (-1074)) as E eqn:HE.
+  destruct (1024 <=? Z.log2 (rne X (E - K)) + E); [reflexivity|].
+  assert (Q : 0 <= rne X (E - K)) by (apply rne_nonneg; lia).
+  rewrite (fin_leb_scale 0 0 (rne X (E - K)) E (Z.min 0 E)) by lia.
+  apply Z.leb_le. assert (P := pow2_pos (E - Z.min 0 E) ltac:(lia)). nia.
+Qed.
+
+(** * Monotonicity of [round_dy] *)
+
+Lemma log2_bounds a : 0 < a -> 2 ^ Z.log2 a <= a < 2 ^ (Z.log2 a + 1).
+Proof. intros H. replace (Z.log2 a + 1) with (Z.succ (Z.log2 a)) by lia. now apply Z.log2_spec. Qed.
+
+(** the rounded quotient has at most 53 bits (2^53 itself is possible) *)
+Lemma rne_upper X sh : 0 < X -> 0 < sh -> Z.log2 X - 52 <= sh -> rne X sh <= 2 ^ 53.
+Proof.
+  intros HX Hsh H. rewrite <- (rne_exact (2 ^ 53) sh Hsh). apply rne_mono; try assumption.
+  apply Z.mul_le_mono_nonneg_r; [apply Z.lt_le_incl, pow2_pos; lia|].
+  rewrite <- Z.pow_add_r by lia.
+  destruct (log2_bounds X HX) as [_ Hu].
+  apply Z.lt_le_incl. eapply Z.lt_le_trans; [exact Hu|].
+  apply Z.pow_le_mono_r; [lia|]. assert (0 <= Z.log2 X) by apply Z.log2_nonneg. lia.
+Qed.
+
+(** and at least 53 bits in the normal range *)
+Lemma rne_lower X sh : 0 < X -> 0 < sh -> sh = Z.log2 X - 52 -> 2 ^ 52 <= rne X sh.
+Proof.
+  intros HX Hsh H. rewrite <- (rne_exact (2 ^ 52) sh Hsh). apply rne_mono; try assumption.
+  apply Z.mul_le_mono_nonneg_r; [apply Z.lt_le_incl, pow2_pos; lia|].
+  rewrite <- Z.pow_add_r by lia.
+  destruct (log2_bounds X HX) as [Hl _].
+  replace (52 + sh) with (Z.log2 X) by lia. exact Hl.
+Qed.
+
+Lemma rd_form_mono X1 X2 K :
+  0 < X1 -> X1 <= X2 -> K <= -1075 -> f_leb (rd_form X1 K) (rd_form X2 K) = true.
+Proof.
+  intros H1 H12 HK.
+  assert (H2 : 0 < X2) by lia.
+  assert (Hl : Z.log2 X1 <= Z.log2 X2) by (apply Z.log2_le_mono; lia).
+  assert (N2 := rd_form_nonneg X2 K H2 HK).
+  unfold rd_form in *. cbv zeta in *.
+  remember (Z.log2 X1) as l1 eqn:Hl1. remember (Z.log2 X2) as l2 eqn:Hl2.
+  destruct (Z.ltb_spec (l1 + K) (-1075)) as [U1|U1]; [exact N2|]. clear N2.
+  destruct (Z.ltb_spec (l2 + K) (-1075)) as [U2|U2]; [lia|].
+  remember (Z.max (l1 + K - 52) (-1074)) as E1 eqn:HE1.
+  remember (Z.max (l2 + K - 52) (-1074)) as E2 eqn:HE2.
+  assert (P0 := pow2_pos (E1 - K) ltac:(lia)).
+  assert (P0' := pow2_pos (E2 - K) ltac:(lia)).
+  destruct (Z.eq_dec E1 E2) as [EE|EN].
+  - (* same grid *)
+    rewrite <- EE in *.
+    assert (Q : rne X1 (E1 - K) <= rne X2 (E1 - K)).
+    { apply rne_mono; try lia. apply Z.mul_le_mono_nonneg_r; lia. }
+    assert (Q0 : 0 <= rne X1 (E1 - K)) by (apply rne_nonneg; lia).
+    assert (LQ := Z.log2_le_mono _ _ Q).
+    destruct (Z.leb_spec 1024 (Z.log2 (rne X1 (E1 - K)) + E1)) as [O1|O1];
+    destruct (Z.leb_spec 1024 (Z.log2 (rne X2 (E1 - K)) + E1)) as [O2|O2];
+      try reflexivity; [lia|].
+    rewrite (fin_leb_scale _ E1 _ E1 E1) by lia. apply Z.leb_le.
+    replace (E1 - E1) with 0 by lia. change (2 ^ 0) with 1. lia.
+  - (* the larger argument lives on a strictly coarser grid *)
+    assert (EL : E1 < E2) by lia.
+    assert (QU : rne X1 (E1 - K) <= 2 ^ 53) by (apply rne_upper; lia).
+    assert (QL : 2 ^ 52 <= rne X2 (E2 - K)) by (apply rne_lower; lia).
+    assert (Q0 : 0 <= rne X1 (E1 - K)) by (apply rne_nonneg; lia).
+    assert (LU : Z.log2 (rne X1 (E1 - K)) <= 53).
+    { replace 53 with (Z.log2 (2 ^ 53)) by (apply Z.log2_pow2; lia). now apply Z.log2_le_mono. }
+    assert (LL : 52 <= Z.log2 (rne X2 (E2 - K))).
+    { replace 52 with (Z.log2 (2 ^ 52)) at 1 by (apply Z.log2_pow2; lia). now apply Z.log2_le_mono. }
+    destruct (Z.leb_spec 1024 (Z.log2 (rne X1 (E1 - K)) + E1)) as [O1|O1];
+    destruct (Z.leb_spec 1024 (Z.log2 (rne X2 (E2 - K)) + E2)) as [O2|O2];
+      try reflexivity; [lia|].
+    rewrite (fin_leb_scale _ E1 _ E2 E1) by lia. apply Z.leb_le.
+    replace (E1 - E1) with 0 by lia. change (2 ^ 0) with 1. rewrite Z.mul_1_r.
+    assert (P2 : 2 ^ 1 <= 2 ^ (E2 - E1)) by (apply Z.pow_le_mono_r; lia).
+    change (2 ^ 1) with 2 in P2. change (2 ^ 53) with (2 ^ 52 * 2) in QU.
+    eapply Z.le_trans; [exact QU|]. apply Z.mul_le_mono_nonneg; lia.
+Qed.
+
+Lemma round_dy_mono_pos m1 e1 m2 e2 :
+  0 < m1 -> 0 < m2 -> f_leb (Fin m1 e1) (Fin m2 e2) = true ->
+  f_leb (round_dy m1 e1) (round_dy m2 e2) = true.
+Proof.
+  intros H1 H2 H.
+  remember (Z.min (Z.min e1 e2) (-1075)) as K eqn:HK.
+  rewrite (fin_leb_scale m1 e1 m2 e2 K) in H by lia. apply Z.leb_le in H.
+  destruct (f_eqb_leb _ _ (round_dy_to_form m1 e1 K H1 ltac:(lia) ltac:(lia))) as [A _].
+  destruct (f_eqb_leb _ _ (round_dy_to_form m2 e2 K H2 ltac:(lia) ltac:(lia))) as [_ B].
+  eapply f_leb_trans; [exact A|]. eapply f_leb_trans; [|exact B].
+  apply rd_form_mono; [|assumption|lia].
+  apply Z.mul_pos_pos; [assumption|apply pow2_pos; lia].
+Qed.
+
+Lemma round_dy_nonneg m e : 0 <= m -> f_leb (Fin 0 0) (round_dy m e) = true.
+Proof.
+  intros H. destruct (Z.eq_dec m 0) as [->|Hn]; [reflexivity|].
+  remember (Z.min e (-1075)) as K eqn:HK.
+  destruct (f_eqb_leb _ _ (round_dy_to_form m e K ltac:(lia) ltac:(lia) ltac:(lia))) as [_ B].
+  eapply f_leb_trans; [|exact B]. apply rd_form_nonneg; [|lia].
+  apply Z.mul_pos_pos; [lia|apply pow2_pos; lia].
+Qed.
+
+Lemma round_dy_nonpos m e : m <= 0 -> f_leb (round_dy m e) (Fin 0 0) = true.
+Proof.
+  intros H. replace m with (- - m) by lia. rewrite round_dy_opp.
+  change (Fin 0 0) with (f_neg (Fin 0 0)). rewrite f_leb_neg. apply round_dy_nonneg. lia.
+Qed.
+
+(** rounding to binary64 is monotone with respect to the exact values *)
+Theorem round_dy_mono m1 e1 m2 e2 :
+  f_leb (Fin m1 e1) (Fin m2 e2) = true ->
+  f_leb (round_dy m1 e1) (round_dy m2 e2) = true.
+Proof.
+  intros H.
+  assert (S : m1 * 2 ^ (e1 - Z.min e1 e2) <= m2 * 2 ^ (e2 - Z.min e1 e2)).
+  { rewrite (fin_leb_scale m1 e1 m2 e2 (Z.min e1 e2)) in H by lia. now apply Z.leb_le. }
+  assert (Pa := pow2_pos (e1 - Z.min e1 e2) ltac:(lia)).
+  assert (Pb := pow2_pos (e2 - Z.min e1 e2) ltac:(lia)).
+  destruct (Z.lt_trichotomy m1 0) as [N1|[Z1|P1]];
+  destruct (Z.lt_trichotomy m2 0) as [N2|[Z2|P2]].
+  - (* both negative: mirror *)
+    replace m1 with (- - m1) by lia. replace m2 with (- - m2) by lia.
+    rewrite (round_dy_opp (- m1)), (round_dy_opp (- m2)), f_leb_neg.
+    apply round_dy_mono_pos; try lia.
+    change (Fin (- m2) e2) with (f_neg (Fin m2 e2)). change (Fin (- m1) e1) with (f_neg (Fin m1 e1)).
+    now rewrite f_leb_neg.
+  - eapply f_leb_trans; [apply round_dy_nonpos; lia|apply round_dy_nonneg; lia].
+  - eapply f_leb_trans; [apply round_dy_nonpos; lia|apply round_dy_nonneg; lia].
+  - exfalso. subst m1. nia.
+  - eapply f_leb_trans; [apply round_dy_nonpos; lia|apply round_dy_nonneg; lia].
+  - eapply f_leb_trans; [apply round_dy_nonpos; lia|apply round_dy_nonneg; lia].
+  - exfalso. nia.
+  - exfalso. subst m2. nia.
+  - now apply round_dy_mono_pos.
+Qed.
+
+(** * Consequences: int -> float, multiplication by a positive constant, truncation *)
+
+Lemma f_of_Z_round z x : f_of_Z z = Ok x -> x = round_dy z 0.
+Proof. unfold f_of_Z. destruct (round_dy z 0); intros [= <-]; reflexivity. Qed.
+
+(** python float(int) is monotone *)
+Lemma f_of_Z_mono z1 z2 a b :
+  z1 <= z2 -> f_of_Z z1 = Ok a -> f_of_Z z2 = Ok b -> f_leb a b = true.
+Proof.
+  intros H Ha Hb. rewrite (f_of_Z_round _ _ Ha), (f_of_Z_round _ _ Hb).
+  apply round_dy_mono. rewrite (fin_leb_scale z1 0 z2 0 0) by lia.
+  apply Z.leb_le. change (2 ^ (0 - 0)) with 1. lia.
+Qed.
+
+(** a float that is already representable is a fixed point of float(int)-style rounding:
+    rounding the exact integer z keeps it on the same side of any representable bound *)
+Lemma round_dy_mono_lower lo_m lo_e m e :
+  round_dy lo_m lo_e = Fin lo_m lo_e ->
+  f_leb (Fin lo_m lo_e) (Fin m e) = true -> f_leb (Fin lo_m lo_e) (round_dy m e) = true.
+Proof. intros R H. rewrite <- R at 1. now apply round_dy_mono. Qed.
+
+Lemma round_dy_mono_upper hi_m hi_e m e :
+  round_dy hi_m hi_e = Fin hi_m hi_e ->
+  f_leb (Fin m e) (Fin hi_m hi_e) = true -> f_leb (round_dy m e) (Fin hi_m hi_e) = true.
+Proof. intros R H. rewrite <- R. now apply round_dy_mono. Qed.
+
+(** x * c is monotone in x for a fixed positive finite c *)
+Lemma f_mul_mono_l a b mc ec :
+  f_is_finite a = true -> f_is_finite b = true -> 0 < mc ->
+  f_leb a b = true -> f_leb (f_mul a (Fin mc ec)) (f_mul b (Fin mc ec)) = true.
+Proof.
+  destruct a as [m1 e1| | |], b as [m2 e2| | |]; cbn [f_is_finite]; try discriminate.
+  intros _ _ Hc H. cbn [f_mul]. apply round_dy_mono.
+  remember (Z.min e1 e2) as K eqn:HK.
+  rewrite (fin_leb_scale m1 e1 m2 e2 K) in H by lia. apply Z.leb_le in H.
+  rewrite (fin_leb_scale (m1 * mc) (e1 + ec) (m2 * mc) (e2 + ec) (K + ec)) by lia.
+  apply Z.leb_le.
+  replace (e1 + ec - (K + ec)) with (e1 - K) by lia.
+  replace (e2 + ec - (K + ec)) with (e2 - K) by lia.
+  replace (m1 * mc * 2 ^ (e1 - K)) with (m1 * 2 ^ (e1 - K) * mc) by ring.
+  replace (m2 * mc * 2 ^ (e2 - K)) with (m2 * 2 ^ (e2 - K) * mc) by ring.
+  apply Z.mul_le_mono_nonneg_r; lia.
+Qed.
+
+Lemma f_mul_fin_not_nan a mc ec : f_is_finite a = true -> f_mul a (Fin mc ec) <> NaN.
+Proof. destruct a; cbn [f_is_finite f_mul]; try discriminate. intros _. apply round_dy_not_nan. Qed.
+
+(** python int(float) is monotone *)
+Lemma f_trunc_mono a b ta tb :
+  f_trunc a = Ok ta -> f_trunc b = Ok tb ->
+  f_num a * f_den b <= f_num b * f_den a -> ta <= tb.
+Proof.
+  intros Ha Hb H.
+  assert (Fa : f_is_finite a = true) by (destruct a; cbn in Ha |- *; try discriminate; reflexivity).
+  assert (Fb : f_is_finite b = true) by (destruct b; cbn in Hb |- *; try discriminate; reflexivity).
+  rewrite (f_trunc_exact a Fa) in Ha. rewrite (f_trunc_exact b Fb) in Hb.
+  injection Ha as <-. injection Hb as <-.
+  assert (Da := f_den_pos a). assert (Db := f_den_pos b).
+  rewrite <- (Z.quot_mul_cancel_r (f_num a) (f_den a) (f_den b)) by lia.
+  rewrite <- (Z.quot_mul_cancel_r (f_num b) (f_den b) (f_den a)) by lia.
+  rewrite (Z.mul_comm (f_den b) (f_den a)).
+  apply Z.quot_le_mono; [apply Z.mul_pos_pos; lia|assumption].
+Qed.
+
+Lemma f_trunc_mono_leb a b ta tb :
+  f_trunc a = Ok ta -> f_trunc b = Ok tb -> f_leb a b = true -> ta <= tb.
+Proof.
+  intros Ha Hb H. apply (f_trunc_mono a b ta tb Ha Hb). apply f_leb_cross; [assumption| |];
+    [destruct a|destruct b]; cbn in *; try discriminate; reflexivity.
+Qed.
+
+Lemma f_round_mono_leb a b ra rb :
+  f_round a = Ok ra -> f_round b = Ok rb -> f_leb a b = true -> ra <= rb.
+Proof.
+  intros Ha Hb H. apply (f_round_mono a b ra rb Ha Hb). apply f_leb_cross; [assumption| |];
+    eapply f_round_finite; eassumption.
+Qed.
+
+Example round_dy_mono_nonvacuous :
+  f_leb (Fin 9007199254740993 0) (Fin 9007199254740995 0) = true
+  /\ round_dy 9007199254740993 0 = Fin 4503599627370496 1
+  /\ round_dy 9007199254740995 0 = Fin 4503599627370498 1.
+Proof. vm_compute. repeat split. Qed.
+
+Example f_mul_mono_l_nonvacuous :
+  f_leb (Fin 1 (-1)) (Fin 3 (-2)) = true
+  /\ f_mul (Fin 1 (-1)) (Fin 100000 0) = Fin 100000 (-1)
+  /\ f_mul (Fin 3 (-2)) (Fin 100000 0) = Fin 300000 (-2).
+Proof. vm_compute. repeat split. Qed.
+
+Print Assumptions round_dy_mono.
+Print Assumptions round_dy_scale.
+Print Assumptions f_of_Z_mono.
+Print Assumptions f_mul_mono_l.
+Print Assumptions f_trunc_mono.
+Print Assumptions f_leb_trans.
+Print Assumptions f_cmp_opp.
